@@ -18,7 +18,7 @@ EXTENDS Integers, Sequences, FiniteSets, TLC
 
 VARIABLE cfg   \* static configuration of the current world (address table, switches)
 
-Bad     == -1073741824   \* an amount that is not an exact in-range multiple of the scale
+Bad     == -16777216     \* an amount that is not an exact in-range multiple of the scale (-2^24: sums of it cannot overflow TLC's integers)
 HugeN   == -1            \* a number >= 2^30 that fits 64 bits
 WideN   == -2            \* a number wider than 8 bytes
 HugeGas == 1073741824
